@@ -4,7 +4,7 @@ import re
 
 from ..astutil import calls_in, call_name, inline, norm, walk_no_nested
 from ..core import AnalysisError
-from ..exprnorm import comparison, linear
+from ..exprnorm import comparison, linear, conjuncts
 from ..roles import RoleChecker
 
 HG = "ethosu/vela/high_level_command_stream_generator.py"
@@ -263,6 +263,8 @@ def run(repo, rep):
     rep.clause("C10-k", "needed_total_padding is the reference's total SAME padding for every extent, stride and filter size (function interpreted on a grid)")
     rep.clause("C10-l", "axis-named locals of the stripe generator (k_height_dilation ..) take values of their own axis")
     rule_round7(repo, rep)
+    rep.clause("C10-n", "read windows of chained slice reads are not overwritten: a slice read is folded only into consumers without a window of their own")
+    rule_slice_chain(repo, rep)
     rep.clause("C10-m", "cascade bookkeeping: all operators of a cascade share one time slot [C12-k]; the rolling buffer keeps the memory type of the storage it is placed in [C02-d]")
     from . import c02 as _c02m
     from . import c12 as _c12m
@@ -673,3 +675,23 @@ def rule_round7(repo, rep):
                       f"`{a.targets[0].id} = {t[:70]}` reads the other axis: with dilation_h != dilation_w the dilated kernel height is wrong and the stripes at the bottom edge get the wrong pad_bottom")
     if n < 2:
         raise AnalysisError(f"generate_high_level_commands_for_sched_op: {n} axis-named bindings with an axis-typed value")
+
+
+def rule_slice_chain(repo, rep):
+    """(n) move_splitsliceread_to_consumer *overwrites* the consumer's read offset / read shape with the slice's. A consumer that is itself
+    a slice read carries a window of its own (SLICE -> SPLIT): folding the first into the second loses the second window, both halves
+    of the SPLIT then read the first half. Either the fold composes the windows (adds the offsets), or remove_SplitSliceRead does not
+    fold into a SplitSliceRead consumer."""
+    gu = repo.mod("graph_optimiser_util")
+    mv = gu.func("move_splitsliceread_to_consumer")
+    overwrites = [a for a in ast.walk(mv) if isinstance(a, ast.Assign) and "cons_op.read_offsets[" in str(norm(a.targets[0])) and str(norm(a.value)).startswith("op.read_offsets[")]
+    go = repo.mod("tflite_graph_optimiser")
+    f = go.func("remove_SplitSliceRead")
+    site = "ethosu/vela/tflite_graph_optimiser.py:remove_SplitSliceRead"
+    quant = [g for g in ast.walk(f) if isinstance(g, ast.GeneratorExp) and "op.ofm.consumer_list" in str(norm(g.generators[0].iter))]
+    if not quant:
+        raise AnalysisError("remove_SplitSliceRead: the quantifier over the consumers was not found")
+    cj = [str(norm(c)) for c in conjuncts(quant[0].elt)]
+    excluded = any(c in ("consumer.type != Op.SplitSliceRead", "Op.SplitSliceRead != consumer.type") or ("SplitSliceRead" in c and "not in" in c) for c in cj)
+    rep.check(excluded or not overwrites, "C10-n", site, "a slice read is not folded into a consumer that is a slice read itself (its own read window would be overwritten)",
+              "move_splitsliceread_to_consumer assigns the consumer's read offset / shape and nothing keeps SplitSliceRead consumers out: input -> SLICE(rows 3..29) -> SPLIT(2 along H) -> two pools: both pools read rows [3,16) of the input")
